@@ -176,3 +176,40 @@ def run(ctx):
         clause = why[0][2] if why and len(why[0]) > 2 else 'rejected'
         ctx.violation(f'arith:{why[0][1] if why else "?"}:{clause[:60]}', f'history seed {seeds[idx]}: record {why[0][0] if why else "?"}: {clause}',
                       dict(seed=seeds[idx], ops=[{k: v for k, v in r.items() if k not in ('T', 'v', 'm')} for r in traces[idx]]))
+
+    if ctx.replay is not None:
+        return
+    # ---- the two remaining clauses of C03 (mode N): from_vector at zero tolerance reproduces the vector; merging two neighbouring
+    # tensors undoes a zero-tolerance split for every distribution of the singular values.  Recorders shared with C13 / C12.
+    from . import c13, c12
+    from .. import canon
+    fv, fvc = [], []
+    for _ in range(ctx.pick(120, 2500)):
+        d, n = int(rng.choice([1, 2, 2, 3])), int(rng.choice([1, 2, 3, 4, 5]))
+        kind = str(rng.choice(['int', 'product', 'lowrank', 'generic', 'weak', 'weak']))
+        fv.append(c13.record_from_vector(ptn, rng, d, n, 0.0, kind))
+        fvc.append(dict(kind='from_vector', d=d, n=n, tol=0.0, vkind=kind))
+        ctx.count(fvc[-1], nontrivial=n >= 2)
+    bad = validate_chunks(ctx, 'TraceCanon', 'tfv', fv, chunk=ctx.pick(60, 600), relax=canon.relax)
+    for idx, why in sorted(bad.items())[:20]:
+        clause = why[0][2] if why and len(why[0]) > 2 else 'rejected'
+        ctx.violation(f'arith:from_vector:{clause[:60]}', f'{fvc[idx]}: {clause}', dict(case=fvc[idx]))
+    sp, spc = [], []
+    for _ in range(ctx.pick(150, 3000)):
+        d0, d1 = int(rng.integers(1, 4)), int(rng.integers(1, 4))
+        D0, D2 = int(rng.integers(1, 5)), int(rng.integers(1, 5))
+        zero = rng.random() < 0.2
+        qd0 = [0] * d0 if zero else [int(x) for x in rng.integers(-1, 2, size=d0)]
+        qd1 = [0] * d1 if zero else [int(x) for x in rng.integers(-1, 2, size=d1)]
+        qD0 = [0] * D0 if zero else [int(x) for x in rng.integers(-1, 2, size=D0)]
+        qD2 = [0] * D2 if zero else [int(x) for x in rng.integers(-2, 3, size=D2)]
+        distr = ['left', 'right', 'sqrt'][int(rng.integers(3))]
+        mono = rng.random() < 0.3
+        sp.append([c12.record_split(ptn, rng, d0, d1, D0, D2, qd0, qd1, qD0, qD2, distr, 0.0, bool(rng.integers(2)), mono)])
+        spc.append(dict(kind='split', args=[d0, d1, qd0, qd1, qD0, qD2, distr, 0.0, mono]))
+        ctx.count(spc[-1], nontrivial=True)
+    bad = validate_chunks(ctx, 'TraceBondOps', 'tsp', sp, chunk=ctx.pick(150, 1500))
+    for idx, why in sorted(bad.items())[:20]:
+        clause = why[0][2] if why and len(why[0]) > 2 else 'rejected'
+        ctx.violation(f'arith:split:{clause[:60]}', f'{spc[idx]}: {clause}', dict(case=spc[idx]))
+
